@@ -20,13 +20,13 @@ type VerifLexerState struct {
 // VerifState returns a copy of lexer's internal counters
 func (l *Lexer) VerifState() VerifLexerState {
 	return VerifLexerState{
-		Pos:             l.pos,
-		ReadPos:         l.readPos,
-		Line:            l.line,
-		Col:             l.col,
+		Pos:             int(l.pos),
+		ReadPos:         int(l.readPos),
+		Line:            uint(l.line),
+		Col:             uint(l.col),
 		IsHTML:          l.isHTML,
 		IsDirective:     l.isDirective,
-		DirectiveParens: l.countDirectiveParentheses,
-		CurlyBraces:     l.countCurlyBraces,
+		DirectiveParens: int(l.countDirectiveParentheses),
+		CurlyBraces:     int(l.countCurlyBraces),
 	}
 }
